@@ -90,12 +90,16 @@ def run(ctx):
                'tables not covering V or not increasing are outside the quantifier')
     ctx.require_events('Extinction.get_av:post', 'pair:chi-scaling', 'pair:units', 'roundtrip:pickle', 'roundtrip:table',
                        'roundtrip:file', 'at-V', 'history:chi-reassigned', 'history:table-replaced', 'history:wav-reassigned', 'query:scalar', 'V-on-node', 'roundtrip:file-defaults', 'history:chi-scaled-with-augmented-assignment')
-    ctx.require_regimes('rows=2', 'rows>=100', 'query:outside', 'query:node', 'query:inside')
+    ctx.require_regimes('opacities:many-decades-from-1', 'rows=2', 'rows>=100', 'query:outside', 'query:node', 'query:inside')
     n_tab = 150 if ctx.quick else 4000
     for it in range(n_tab):
         n = int(rng.choice([2, 3, 4, 8, 25, 100, 200]))
         lw, lc = gen.make_law_arrays(rng, n=n)
         lc = lc * 10.0 ** rng.uniform(-6, 6)
+        if it % 5 == 2:
+            # "any positive opacities": tables many decades away from 1 (per particle instead of per gram, SI versus cgs, ...)
+            lc = lc * [1e-30, 1e-22, 1e-16, 1e20, 1e30][(it // 5) % 5]
+            ctx.regime('opacities:many-decades-from-1')
         n = len(lw)
         ctx.regime('rows=2' if n == 2 else ('rows>=100' if n >= 100 else 'rows:mid'))
         un = str(rng.choice(list(LEN)))
@@ -158,7 +162,7 @@ def run(ctx):
         q = (qs_um[:12] / fac) * unit
         base = np.asarray(law.get_av(q), float)
         # chi x c
-        c = float(10.0 ** rng.uniform(-8, 8))
+        c = float(10.0 ** rng.uniform(-8, 8)) if it % 5 != 3 else [1e-30, 1e-20, 1e25][(it // 5) % 3]
         law2 = Extinction()
         law2.wav = tv * unit
         law2.chi = (chi_native * c) * cunit
